@@ -50,7 +50,7 @@ def takeRecs : Nat → List String → Option (List Rec × List String)
 def natList (s : String) : List Nat :=
   if s.isEmpty then [] else (s.splitOn ",").map natOfStr
 
-def decodeListing : List String → Option (List Supplier × List Rec × Layout)
+def decodeListing : List String → Option (List Supplier × List Rec × Spec.RebaseListing.Layout)
   | ns :: r =>
     match takeSups (natOfStr ns) r with
     | some (sups, nr :: r1) =>
